@@ -162,6 +162,21 @@ def req_campaign(ctx, fams, rfams=(), consistent=True):
         validate_req(ctx, tr, fam, cases)
 
 
+def logical_campaign(ctx, n):
+    """campaign R for whole requests: the harness proposes seeded logical requests (all byte values the http crate
+    admits, random tampering / respelling recipe), TLC signs them with the reference signer, the library validates."""
+    d = ctx.sub("rgen-logical")
+    lg = os.path.join(d, "logical.ndjson")
+    rc, o = sh([CONFORM, "gen", "logical", str(ctx.seed), str(n), lg], timeout=600)
+    if rc != 0:
+        raise ToolError("harness gen failed: " + o[-300:])
+    cases, k = tlc_gen(ctx, "Gen_Req", {"Family": "logical", "Bound": 0}, "R:logical", env={"LOGICAL": lg})
+    ctx.exhaustive = False
+    ctx.campaigns[-1].update({"campaign": "R", "seed": ctx.seed, "exhaustive": False})
+    tr = hrun(ctx, cases, "R:logical")
+    validate_req(ctx, tr, "R:logical", cases)
+
+
 def validate_req(ctx, tr, label, cases):
     nv0 = len(ctx.violations)
     validate(ctx, "Trace_Req", tr, label, group="begin", chunk=1200, distinct_key=req_key)
@@ -183,6 +198,7 @@ def pipeline_mc(ctx, quick, history=False):
 def C13(ctx):
     q = ctx.quick
     pipeline_mc(ctx, q)
+    mc(ctx, "SigV4", "MC_SigV4_bug_scope_before_window.cfg", expect_violation="Precedence", label="neg-scope-before-window")
     fn_campaign(ctx, [("errtable", 0)], [])
     req_campaign(ctx, [("defects", 2 if q else 14), ("scripts", 1 if q else 0)])
     return dict(
@@ -198,6 +214,9 @@ def C14(ctx):
     q = ctx.quick
     pipeline_mc(ctx, q, history=True)
     mc(ctx, "SigV4", "MC_SigV4_live.cfg", label="liveness")
+    for bug, inv in (("call_before_rules", "ProviderLast"), ("retry_on_error", "ProviderOnce"),
+                     ("accept_on_provider_error", "OkNeedsAnswer"), ("skip_ready", "CallOnlyWhenReady")):
+        mc(ctx, "SigV4", "MC_SigV4_bug_%s.cfg" % bug, expect_violation=inv, label="neg-" + bug)
     req_campaign(ctx, [("scripts", 0), ("defects", 1)])
     return dict(
         rule="MC: provider process with delayed readiness / delayed answer / SignatureError / foreign error scripts, "
@@ -213,6 +232,7 @@ def C01(ctx):
     pipeline_mc(ctx, q)
     req_campaign(ctx, [("sigmut", 0), ("mut_struct", 0), ("mut_key", 0), ("mut_body", 0), ("mut_uri", 0), ("mut_hdr", 0)]
                  + ([] if q else [("base", 1)]))
+    logical_campaign(ctx, 400 if q else 20000)
     return dict(
         rule="MC: OkSound on SigV4.tla. E: every one of the 64 hex digits flipped, upper-casing, truncation, extension, "
              "empty signature on both carriers; valid base requests; single-component mutations of validly signed "
@@ -226,6 +246,7 @@ def C02(ctx):
     q = ctx.quick
     pipeline_mc(ctx, q)
     req_campaign(ctx, [("spell", 0), ("base", 0 if q else 1), ("midnight", 0), ("window", 0 if q else 1)])
+    logical_campaign(ctx, 400 if q else 20000)
     return dict(
         rule="MC: Complete on SigV4.tla; the spelling law (an admissible respelling leaves canonical request, string-to-sign "
              "prefix, payload, access key and token unchanged) is checked by TLC on Request!Q for every generated case. "
@@ -283,6 +304,7 @@ def C11(ctx):
     mc(ctx, "MC_Headers", law_cfg("HvalLaws", "hval", 4 if q else 6), label="HvalLaws")
     fn_campaign(ctx, [("hval", 4 if q else 6)], [("hval", 3000 if q else 100000)])
     req_campaign(ctx, [("mut_struct", 0), ("mut_hdr", 0), ("spell", 0)] + ([] if q else [("base", 1)]))
+    logical_campaign(ctx, 400 if q else 20000)
     return dict(
         rule="MC: NormValue idempotent, no leading/trailing/double space, non-space bytes preserved in order. E (function): "
              "every value over {SP, a, b, ',', HTAB, 0xE9} up to length %d through normalize_header_value. E (end to end): "
@@ -311,6 +333,7 @@ def C15(ctx):
     q = ctx.quick
     pipeline_mc(ctx, q)
     req_campaign(ctx, [("passthru", 0), ("fold", 0)] + ([] if q else [("base", 1)]))
+    logical_campaign(ctx, 400 if q else 20000)
     return dict(
         rule="E: 5 methods (incl. extension methods) x 5 HTTP versions x 5 header multisets (repeats, empty and non-UTF-8 "
              "values) x 3 body types ((), Vec<u8>, Bytes) x bodies x both carriers, with a distinct principal and session "
